@@ -22,8 +22,8 @@ PKG_CS = "./pkg/crypto/ciphersuite"
 # required to be without effect.  Everything else is only required not to panic / wedge / bloat:
 EXCEPTIONS = [
     "X1 unprotected alert record that decodes, level fatal or close_notify: protocol-defined termination "
-    "(DTLS 1.2 alerts are unauthenticated until the epoch changes); X1b a NON-fatal one is handed to Read as an "
-    "error once established (connection continues) and must be inert while the handshake is running",
+    "(DTLS 1.2 alerts are unauthenticated until the epoch changes) - ONLY while the handshake is running: once "
+    "established every unprotected alert must be inert; a NON-fatal one must be inert in every phase",
     "X2 unprotected handshake fragments that decode: the handshake is unauthenticated until Finished, forged "
     "flight content may derail or abort a handshake in progress (never panic / never wedge an ESTABLISHED one)",
     "X3 unprotected application_data / change_cipher_spec / ACK / RRC records that decode: unexpected_message "
@@ -191,8 +191,8 @@ def obs_violation(o):
     e = o["eff"]
     if not e:
         return None
-    if cls == "warn" and o["est"] and set(e) <= {"read_err"}:
-        return None  # as coded (C08_warning_alert_after_establishment): handed to Read, the connection continues
+    if cls.startswith("alert:") and not o["est"]:
+        return None  # exception X1: an unprotected fatal alert / close_notify ends a handshake in progress
     what = []
     if e.get("hs_err"):
         what.append("aborts the handshake in progress (%s)" % e["hs_err"].replace("handshake failed: ", ""))
@@ -212,6 +212,8 @@ def obs_violation(o):
 def drop_kind(cls):
     if cls == "warn":
         return "unprotected warning alert (not fatal, not close_notify)"
+    if cls.startswith("alert:"):
+        return "unprotected fatal alert / close_notify"
     if cls == "undec:ccs-epoch":
         return "change_cipher_spec-typed record claiming a protected epoch (taken as cleartext, never authenticated)"
     if cls.startswith("unsplit"):
@@ -226,6 +228,8 @@ def drop_kind(cls):
 def site_of(cls):
     if cls == "warn":
         return "conn.go classifyReadLoopError / deliverReadError (non-fatal alert)"
+    if cls.startswith("alert:"):
+        return "conn.go handleRecordContent (alert record of epoch 0 on an established connection)"
     if cls == "undec:ccs-epoch":
         return ("pkg/crypto/ciphersuite *.Decrypt (change_cipher_spec records returned unchanged) / conn.go "
                 "handleIncomingPacket (RecordLayer.Unmarshal error at epoch >= 1 -> fatal alert + error)")
@@ -240,7 +244,9 @@ def model_term(o):
     """(established, class, observed effect) for Rec.C08Run.c08_ok"""
     cls = o["class"]
     k = {"empty": "KEmpty", "badhdr": "KBadHeader", "forged": "KForged", "clear": None, "auth": None,
-         "warn": "KWarnAlert" if o.get("fresh") else "KUndecStale"}.get(cls, "?")
+         "warn": "KWarnAlert" if o.get("fresh") else "KUndecStale",
+         "alert:fatal": "KFatalAlert" if o.get("fresh") else "KUndecStale",
+         "alert:close": "KCloseNotify" if o.get("fresh") else "KUndecStale"}.get(cls, "?")
     if k is None or o.get("nrec", 0) > 1:
         return None  # only single-record datagrams (and datagrams that do not split) have a one-step prediction
     if cls.startswith("unsplit:"):
